@@ -401,21 +401,50 @@ func c19CountersWorker(args []string) int {
 	wg.Wait()
 	close(stop)
 	got := st.Get()
+	// first samples of a fresh key added by several goroutines at the same moment: every one of them must
+	// be exported (the window is created on first use)
+	firstViol := ""
+	rounds := 1500
+	for round := 0; round < rounds && firstViol == ""; round++ {
+		fs := metrics.NewStats()
+		key := fmt.Sprintf("fresh%d", round)
+		var bw sync.WaitGroup
+		start := make(chan struct{})
+		const K = 8
+		var sum int64
+		for g := 0; g < K; g++ {
+			v := int64(1000*(round+1) + g + 1)
+			sum += v
+			bw.Add(1)
+			go func(v int64) {
+				defer bw.Done()
+				<-start
+				fs.AddSample(key, v)
+			}(v)
+		}
+		close(start)
+		bw.Wait()
+		e := fs.Get()
+		wantMin, wantMax, wantAvg := int64(1000*(round+1)+1), int64(1000*(round+1)+K), sum/K
+		if e[key+".min"] != wantMin || e[key+".max"] != wantMax || e[key+".avg"] != wantAvg {
+			firstViol = fmt.Sprintf("round %d: %d goroutines added the first samples %d..%d of a fresh key at once, exported min/max/avg = %d/%d/%d, want %d/%d/%d", round, K, wantMin, wantMax, e[key+".min"], e[key+".max"], e[key+".avg"], wantMin, wantMax, wantAvg)
+		}
+	}
 	ok := got["shared"] == G*N && got["by3"] == 3*G*N
 	for g := 0; g < G; g++ {
 		if got[fmt.Sprintf("own%d", g)] != N {
 			ok = false
 		}
 	}
-	summary(map[string]interface{}{"ok": ok, "shared": got["shared"], "by3": got["by3"], "increments": 3 * G * N})
-	if !ok {
+	summary(map[string]interface{}{"ok": ok, "shared": got["shared"], "by3": got["by3"], "increments": 3 * G * N, "first_sample_rounds": rounds, "first_sample_violation": firstViol})
+	if !ok || firstViol != "" {
 		return 1
 	}
 	return 0
 }
 
 func runC19(r *report.Run) {
-	r.SetRule("(a) generated and hostile queries on generated databases of every layout (CDB, RocksDB v1/v2; cache on and off) with recording implementations of the public Stats and Logger interfaces: per query the counter deltas must be DNS_queries +1, its type counter +1, exactly one location-class counter and one of cache hit/missed/expired once the location stage is passed, and nxdomain/refused/nodata/badvers/notauthoritative exactly as the message actually written dictates; Log called exactly once with a message equal to the one written for every composed response, never without a write. (b) 16 goroutines x 1e5 increments on metrics.Stats with a concurrent exporter, sums exact, under the race detector. (c) real sliding windows (verif constructor, lifetime 3 s, real clock) fed scripted Add schedules with live and expired samples present at the same cleaner tick, unique non-zero values; each observation classifies every sample from measured monotonic timestamps as must-be-reported / must-be-gone / either, observations with an 'either' sample are skipped; exported min/max/avg must be computed from exactly the must-set. non-trivial = checked query / conclusive observation; distinct by case")
+	r.SetRule("(a) generated and hostile queries on generated databases of every layout (CDB, RocksDB v1/v2; cache on and off) with recording implementations of the public Stats and Logger interfaces: per query the counter deltas must be DNS_queries +1, its type counter +1, exactly one location-class counter and one of cache hit/missed/expired once the location stage is passed, and nxdomain/refused/nodata/badvers/notauthoritative exactly as the message actually written dictates; Log called exactly once with a message equal to the one written for every composed response, never without a write. (b) 16 goroutines x 1e5 increments on metrics.Stats with a concurrent exporter, sums exact, under the race detector; plus 1 500 rounds of 8 goroutines adding the first samples of a fresh key at the same moment, all of which must be exported. (c) real sliding windows (verif constructor, lifetime 3 s, real clock) fed scripted Add schedules with live and expired samples present at the same cleaner tick, unique non-zero values; each observation classifies every sample from measured monotonic timestamps as must-be-reported / must-be-gone / either, observations with an 'either' sample are skipped; exported min/max/avg must be computed from exactly the must-set. non-trivial = checked query / conclusive observation; distinct by case")
 	r.Assume("(c) uses the real clock because the code has no clock seam; tick 1 s plus 1 s slack before a sample must be gone; skipped observations are counted, never decided")
 	var wg sync.WaitGroup
 	wg.Add(1)
@@ -434,6 +463,12 @@ func runC19(r *report.Run) {
 		r.Nontrivial("counters")
 		if ok, _ := res.Summary["ok"].(bool); !ok {
 			r.Violation("", fmt.Sprintf("concurrent counter sums are wrong: %v", res.Summary), res.Summary)
+		}
+		if n, ok := res.Summary["first_sample_rounds"].(float64); ok {
+			r.Count("b_concurrent_first_sample_rounds", int64(n))
+		}
+		if v, _ := res.Summary["first_sample_violation"].(string); v != "" {
+			r.Violation("", "samples lost: "+v, res.Summary)
 		}
 		for _, u := range uniq {
 			r.Violation("", "data race in metrics.Stats:\n"+u.Text, map[string]interface{}{"report": u.Text})
